@@ -10,6 +10,7 @@ MODULES = [
     "contracts.c_timeout",
     "contracts.c_retry2",
     "contracts.c_poll",
+    "contracts.c_shutdown",
 ]
 EXPECTED_MIN_OBLIGATIONS = {}
 PROPERTY_ASSUMPTIONS = {}
